@@ -240,6 +240,23 @@ def handleG (fixed : Bool) (cfg : Cfg) (p : Pkt) : Outcome :=
           | none => if fixed then .drop "reverse" else .panic "explicit:reverse"
           | some (rt, rp) => .reply (ntpReply cfg p fixed authenticated rt rp)
 
+/-- Identity of the host-to-host DRKey the listener verifies a request under:
+    `FetchHostASKey(SrcIA := pkt.DstIA, DstIA := pkt.SrcIA, SrcHost := dstAddr)` followed by
+    `DeriveHostHostKey(·, srcAddr)` — a function of the packet's *own* addressing only: server
+    IA and **addressed** server host, client IA and client host.  The oracle `Pkt.mac` is the
+    MAC under this key.  `Fetcher`'s per-IA cache of host-AS keys must be transparent: whatever
+    was served before, a packet is checked under `keyOf` of itself (the model is a pure function
+    of `(cfg, pkt)`; the key histories of harness/cmd/c13 tie this to the code). -/
+structure KeyId where
+  serverIA : Nat
+  serverHost : List Nat
+  clientIA : Nat
+  clientHost : List Nat
+  deriving Repr, DecidableEq
+
+def keyOf (p : Pkt) : KeyId :=
+  { serverIA := p.dstIA, serverHost := p.dstAddr, clientIA := p.srcIA, clientHost := p.srcAddr }
+
 /-- The code as found. -/
 def handleOld : Cfg → Pkt → Outcome := handleG false
 /-- The code after the `fix:` commits. -/
@@ -257,5 +274,10 @@ def serverCfg (svc connPort dscp : Nat) (mock dcNil fetchOk : Bool) : Cfg :=
 def dispatcherCfg : Cfg :=
   { connPort := EndhostPort, localHostPort := EndhostPort, dscp := 0, fetcher := false,
     mockKeys := false, dcNil := true, fetchOk := false }
+
+/-- A listener goroutine handling a sequence of datagrams: one outcome per datagram, each that
+    of `handle` on the datagram alone (no state is carried from one packet to the next as far
+    as serve / drop / forward decisions and reply fields are concerned). -/
+def serve (cfg : Cfg) (history : List Pkt) : List Outcome := history.map (handle cfg)
 
 end ScionTime.ScionSrv
